@@ -299,3 +299,42 @@ def max_(*a, **k):
     if len(a) == 1 and isinstance(a[0], SymKeys) and not k:
         return a[0]._extreme(True)
     return max(*a, **k)
+
+
+# -- sets with symbolic membership over a concrete universe ---------------------------------------
+
+
+class SymSet:
+    """A subset of a concrete universe whose membership is symbolic (one Bool per element):
+    `x in s` and iteration fork on the membership of the elements concerned."""
+
+    def __init__(self, name, universe, S=None):
+        self.universe = list(universe)
+        self.name = name
+        if S is not None and getattr(S, "concrete", False):
+            self.member = {u: bool(S.bool("%s[%s]" % (name, u))) for u in self.universe}
+        else:
+            self.member = {u: (S.bool("%s[%s]" % (name, u)) if S is not None else ctx().fresh_bool(name)) for u in self.universe}
+
+    def __contains__(self, x):
+        m = self.member.get(x)
+        if m is None:
+            return False
+        return bool(m)
+
+    def __iter__(self):
+        for u in self.universe:
+            if bool(self.member[u]):
+                yield u
+
+    def __len__(self):
+        return sum(1 for _ in self)
+
+    def __bool__(self):
+        return any(True for _ in self)
+
+    def concrete_members(self):
+        return [u for u in self.universe if bool(self.member[u])]
+
+    def __deepcopy__(self, memo):
+        return self
